@@ -347,6 +347,8 @@ AST_TO_REVERSE = {
     node_cls: _NEG_OPERATOR_TO_AST[op]
     for node_cls, (op, _, _) in COMPARATOR_TO_OPERATOR.items()
 }
+# "a < b" is the same as "b > a"
+AST_TO_MIRRORED = {ast.Lt: ast.Gt, ast.LtE: ast.GtE, ast.Gt: ast.Lt, ast.GtE: ast.LtE}
 
 SAFE_DECORATORS_FOR_ARGSPEC_TO_RETVAL = [KnownValue(asynq.asynq), KnownValue(property)]
 if sys.version_info < (3, 11):
@@ -3625,8 +3627,10 @@ class NameCheckVisitor(node_visitor.ReplacingNodeVisitor):
         elif isinstance(rhs_constraint, PredicateProvider) and isinstance(
             lhs, KnownValue
         ):
+            # The provider is on the right: "3 < len(x)" means "len(x) > 3"
+            mirrored_op = AST_TO_MIRRORED.get(type(op))
             constraint = self._constraint_from_predicate_provider(
-                rhs_constraint, lhs.val, op
+                rhs_constraint, lhs.val, op if mirrored_op is None else mirrored_op()
             )
         elif isinstance(rhs, KnownValue):
             constraint = self._constraint_from_compare_op(
